@@ -734,6 +734,9 @@ func (r *recorder) dump(t *testing.T, name string) {
 	}
 }
 
+func jsonUnmarshal(b []byte, v any) error { return json.Unmarshal(b, v) }
+func errorsIs(err, target error) bool   { return errors.Is(err, target) }
+
 func envInt(name string, def int) int {
 	if v, err := strconv.Atoi(os.Getenv(name)); err == nil {
 		return v
